@@ -201,6 +201,9 @@ pub const VALUE_EXPRS: &[&str] = &[
     "continue", "let a = 1", "a = 1", "a += 1", "x.await", "#[a] 1", "(1)", "((1))", "1, 2", "1;",
     "{ let a = 1; a }", "X { a: { 1 } + 2 }", "if let Some(a) = b { a } else { c }",
     "[1; N]", "<T as Tr>::f()", "T::default()", "T::C", "<T>::C", "Vec::<T>::new()", "vec![T::default()]",
+    "1u8", "1_000", "0x1f", "0b1", "1e3", "1.", "1f32", "-1.5e-3", "1usize", "340282366920938463463374607431768211455",
+    "r\"raw\"", "r#\"ra\"w\"#", "b'x'", "br\"x\"", "c\"x\"", "'\\n'", "\"\\u{e9}\\n\\\"\"", "\"\"", "'\u{e9}'",
+    "\u{e9}", "\u{540d}::\u{524d}", "r#type", "r#type::r#match", "'a: loop {}", "&'static str", "<'a>",
 ];
 pub const TYPES: &[&str] = &[
     "u8", "String", "T", "U", "Vec<T>", "Option<T>", "&'a T", "&'a str", "[T; N]", "[u8; 3]",
@@ -220,6 +223,8 @@ const GENERIC_PARAMS: &[&str] = &[
     "T", "U", "'a", "'b", "const N: usize", "T: Clone", "T: ?Sized", "T = u8",
     "const M: usize = 3", "r#type", "H", "'a: 'b", "T: Tr<U>", "T: for<'x> Fn(&'x u8)", "Self_",
     "A", "F: Fn(T) -> T", "T: 'a + Copy", "const B: bool",
+    "'static_", "'r#type", "'_a", "\u{e9}", "\u{540d}: Clone", "const \u{3b1}: usize", "'\u{e9}", "T: ?Sized + 'a",
+    "const N: usize = { 1 + 1 }", "T: Tr<A = u8>", "T: Tr<{ 1 }>", "#[cfg(x)] T", "#[ord(ignore)] T",
 ];
 const WHERE_PREDS: &[&str] = &[
     "T: Copy",
@@ -244,6 +249,8 @@ const IDENTS: &[&str] = &[
     "_other_0", "_this_0", "__eq__0", "r#Self_", "value", "r#self_", "eq", "cmp", "hash", "fmt",
     "clone", "default", "i", "l", "r", "_", "__", "r#dyn", "r#async", "usize", "bool", "Some",
     "@long300", "@long1100", "@long5000",
+    "\u{540d}\u{524d}", "\u{3b1}\u{3b2}", "\u{e9}", "x\u{301}", "\u{421}lone", "r#\u{e9}t\u{e9}", "Add\u{e9}Assign",
+    "\u{e9}Assign", "Assign", "_Assign", "AssignAssign", "a1", "_1", "__0", "A_", "CONST", "static_",
 ];
 const BOUND_ARGS: &[&str] = &[
     "T", "..", "T: Clone", "T, ..", "", "Vec<T>", "T: Clone + 'static, U",
